@@ -179,6 +179,19 @@ impl Prop for C15 {
     fn random(&self, _env: &Env, bytes: &[u8], st: &mut Stats) -> Result<(), Fail> {
         let mut s = Src::new(bytes);
         let cfg = GenCfg::default();
+        if s.chance(1, 5) {
+            // a tree that survived error recovery (one malformed member injected)
+            let inj = super::c14::gen_case(&mut s);
+            st.eval();
+            st.class("recovered-tree");
+            let case = || bytes_case(bytes, json!({"text": inj.text}));
+            let (p, v) = imp::run_one(&inj.text).map_err(|e| Fail::new(e, case()))?;
+            for t in [p.ast, v.ast].into_iter().flatten() {
+                let n = check_tree(&t).map_err(|e| Fail::new(e, case()))?;
+                st.add("traversal_checks", n as u64);
+            }
+            return Ok(());
+        }
         let d = doccase::gen_doc(&mut s, &cfg, &LayoutCfg::default())?;
         st.eval();
         let case = || bytes_case(bytes, json!({"text": d.laid.text}));
